@@ -23,8 +23,9 @@ type c14Chain struct {
 	dateF       *types.Var
 	aft         *kit.Func
 	aftCall     *ast.CallExpr
-	ctorProblem string // definite defect of the construction
-	ctorUnknown string // construction not recognised (undecided)
+	aftIn       *kit.Func // function containing aftCall
+	ctorProblem string    // definite defect of the construction
+	ctorUnknown string    // construction not recognised (undecided)
 }
 
 func c14IsTime(t types.Type) bool { return kit.IsNamedType(t, "time", "Time") && !c14IsPtr(t) }
@@ -220,6 +221,7 @@ func newC14Chain(c *kit.Ctx, m *ruModel) *c14Chain {
 	if ch.aft == nil {
 		c.Fatalf("no method (time.Time) → (bool, error) on %s", ch.sched.Obj().Name())
 	}
+	aftIn := f
 	ruInspectOwn(f, func(n ast.Node) bool {
 		if call, ok := n.(*ast.CallExpr); ok && ch.aftCall == nil && f.CalleeFunc(call) == ch.aft {
 			ch.aftCall = call
@@ -227,10 +229,29 @@ func newC14Chain(c *kit.Ctx, m *ruModel) *c14Chain {
 		return true
 	})
 	if ch.aftCall == nil {
-		c.Fatalf("%s builds a schedule but never calls its predicate %s", f.Name, ch.aft.Name)
+		// the schedule may be built by a helper and used by its caller
+		for _, g := range c.P.Funcs(ruClientPkg) {
+			if g.Body == nil || g.Outer != nil || ch.aftCall != nil {
+				continue
+			}
+			ast.Inspect(g.Body, func(n ast.Node) bool {
+				if call, ok := n.(*ast.CallExpr); ok && ch.aftCall == nil && g.CalleeFunc(call) == ch.aft {
+					if sel, isSel := ast.Unparen(call.Fun).(*ast.SelectorExpr); isSel {
+						if rc, isCall := ast.Unparen(sel.X).(*ast.CallExpr); isCall && g.CalleeFunc(rc) == f {
+							ch.aftCall, aftIn = call, g
+						}
+					}
+				}
+				return true
+			})
+		}
 	}
+	if ch.aftCall == nil {
+		c.Fatalf("%s builds a schedule but its predicate %s is not called on it", f.Name, ch.aft.Name)
+	}
+	ch.aftIn = aftIn
 	// the predicate must be applied to the schedule just built
-	if sel, ok := ast.Unparen(ch.aftCall.Fun).(*ast.SelectorExpr); ok {
+	if sel, ok := ast.Unparen(ch.aftCall.Fun).(*ast.SelectorExpr); ok && aftIn == f {
 		recv := kit.ObjOf(f.Info(), sel.X)
 		okRecv := false
 		if recv != nil {
@@ -311,7 +332,52 @@ func c14WeekdaysFrom(m *ruModel, f *kit.Func, arg ast.Expr) string {
 		// the statement must be the then-branch of `if v` directly in the loop body
 		ifs, _ := f.Enclosing(as, func(x ast.Node) bool { _, ok := x.(*ast.IfStmt); return ok }).(*ast.IfStmt)
 		if ifs == nil || ifs.Pos() < rs.Body.Pos() {
-			bad++ // unconditional append inside the loop
+			// no enclosing if: look for a guard of the form `if !v { continue }`
+			// among the earlier statements of the loop body
+			guard := ""
+			for _, stmt := range rs.Body.List {
+				if stmt.Pos() >= as.Pos() {
+					break
+				}
+				g, isIf := stmt.(*ast.IfStmt)
+				if !isIf || g.Else != nil || len(g.Body.List) != 1 {
+					continue
+				}
+				br, isBr := g.Body.List[0].(*ast.BranchStmt)
+				if !isBr || br.Tok != token.CONTINUE || br.Label != nil {
+					continue
+				}
+				gc := ast.Unparen(g.Cond)
+				if u, isNot := gc.(*ast.UnaryExpr); isNot && u.Op == token.NOT && isV(u.X) {
+					guard = "good"
+				} else if isV(gc) {
+					guard = "bad"
+				} else if a, b, neg, isEq := ruEqLeaf(gc); isEq && isV(a) {
+					if tv, has := info.Types[b]; has && tv.Value != nil {
+						if (tv.Value.String() == "false") != neg {
+							guard = "good"
+						} else {
+							guard = "bad"
+						}
+					}
+				} else {
+					guard = "unknown"
+				}
+			}
+			direct := false
+			for _, stmt := range rs.Body.List {
+				if stmt == ast.Stmt(as) {
+					direct = true
+				}
+			}
+			switch {
+			case !direct || guard == "unknown":
+				other++
+			case guard == "good":
+				good++
+			default:
+				bad++ // unconditional (or inverted) append inside the loop
+			}
 			return true
 		}
 		inThen := ifs.Body.Pos() <= as.Pos() && as.End() <= ifs.Body.End()
